@@ -163,6 +163,8 @@ def run_once(env, sc, schedule, stop=None):
             if not self.done:
                 self.done = True
                 src["finalized"] += 1
+            # a hand-written aclose() may return anything; the value must not leak into the stream's fate
+            return [None, True, "closed", 0][oseed % 4]
 
     def subscribe_resolver(_src, info, **kwargs):
         c = sc["creation"]
@@ -287,6 +289,7 @@ def run_once(env, sc, schedule, stop=None):
         sched.drain()
         out["tasks_left"] = len(sched.unfinished_tasks())
         out["inflight_end"] = stats["inflight"]
+        out["root_value_mismatch"] = stats.get("root_value_mismatch", 0)
         out["src"] = dict(src)  # before the loop is closed: shutdown_asyncgens() would hide a leaked source
         return out
     finally:
@@ -387,6 +390,9 @@ def eval_scenario(sc):
             bad("stream-end", f"stream ended with {out['end']} ({out['raised']!r}), expected {want_end}")
         elif want_end == "error" and not isinstance(out["raised"], Boom):
             bad("source-error-changed", f"consumer saw {out['raised']!r} instead of the source's exception")
+        if out.get("root_value_mismatch"):
+            bad("resolve-info-root-value", f"{out['root_value_mismatch']} top-level resolver call(s) of the "
+                "per-event executions saw an info.root_value that is not the event")
         if out["tasks_left"]:
             bad("task-leak", f"{out['tasks_left']} unfinished tasks after the stream ended")
         if out["unhandled"]:
